@@ -269,23 +269,5 @@ Proof.
           | replace y with (- x) by (unfold det3; ring); rewrite sgnR_opp; split; [lia|apply Hnz; rewrite sgnR_opp; lia] ] end.
 Qed.
 
-(** * The global statement (one perturbation for ALL points), stated precisely; not proved here.
-    For a finite set given as a strictly increasing list, the point of index k gets
-    (eps^(4*8^k), eps^(2*8^k), eps^(8^k)); the claim is that exactSign of any three members
-    is the sign of the determinant of their perturbed rows for all small eps. It follows from
-    [exact_sign_sos] once the expansion is redone for exponents 8^i, 8^j, 8^k (i < j < k): the
-    order of the 34 subset sums only depends on the relative order of the nine exponents
-    because each is larger than the sum of all smaller ones. The observer checks this statement
-    on every run against an independent Leibniz expansion with the global ranks (tupleCase). *)
-Definition SOS_GLOBAL : Prop :=
-  forall (pts : list s2_Point),
-    Forall finite pts ->
-    (forall i j, (i < j < length pts)%nat -> cmp_gt (nth j pts (mk_s2_Point (mk_r3_Vector 0 0 0))) (nth i pts (mk_s2_Point (mk_r3_Vector 0 0 0))) = true) ->
-    exists e0, 0 < e0 /\ forall e, 0 < e < e0 ->
-      forall i j k, (i < length pts)%nat -> (j < length pts)%nat -> (k < length pts)%nat ->
-        i <> j -> j <> k -> i <> k ->
-        let row n := nth n pts (mk_s2_Point (mk_r3_Vector 0 0 0)) in
-        exact_sign (row i) (row j) (row k) =
-        sgnR (det3 (PX (row i) + dX i e) (PY (row i) + dY i e) (PZ (row i) + dZ i e)
-                   (PX (row j) + dX j e) (PY (row j) + dY j e) (PZ (row j) + dZ j e)
-                   (PX (row k) + dX k e) (PY (row k) + dY k e) (PZ (row k) + dZ k e)).
+(** The statement for a whole finite point set (one perturbation for ALL points, every triple,
+    every argument order) and its Grassmann-Pluecker corollary are in Proofs/C02_SoSGlobal.v. *)
